@@ -98,6 +98,34 @@ example : visible (lockstep ({ actor := 1 }, { actor := 2 }, true)
     [.edit W1.c1, .edit W1.c2, .undo, .undo, .redo, .undo, .redo, .redo]).2.1 = "{\"a\":2}" := by
   decide
 
+/-! the lock-step statement after EVERY prefix (added): the peer shows the author's content not only at the end
+    but after each change on the way, as long as the whole program stays in scope -/
+
+theorem lockstep_append (a b : List Act) : ∀ s : Hist × Hist × Bool,
+    lockstep s (a ++ b) = lockstep (lockstep s a) b := by
+  induction a with
+  | nil => intro s; simp [lockstep]
+  | cons x r ih => intro ⟨h, g, ok⟩; simp only [List.cons_append, lockstep]; exact ih _
+
+/-- the scope flag is sticky: once a step left the scope the run is out of scope for good -/
+theorem lockstep_flag_sticky (acts : List Act) : ∀ h g : Hist, (lockstep (h, g, false) acts).2.2 = false := by
+  induction acts with
+  | nil => intro h g; simp [lockstep]
+  | cons a r ih => intro h g; simp only [lockstep, Bool.false_and]; exact ih _ _
+
+theorem undo_redo_lockstep_every_prefix_partial (h g : Hist) (pre post : List Act) (hg : g.doc = h.doc)
+    (hok : (lockstep (h, g, true) (pre ++ post)).2.2 = true) :
+    visible (lockstep (h, g, true) pre).2.1 = visible (lockstep (h, g, true) pre).1 := by
+  apply undo_redo_lockstep_sync_partial h g pre hg
+  rw [lockstep_append] at hok
+  cases hf : (lockstep (h, g, true) pre).2.2 with
+  | true => rfl
+  | false =>
+    have e : lockstep (h, g, true) pre =
+        ((lockstep (h, g, true) pre).1, (lockstep (h, g, true) pre).2.1, false) := by rw [← hf]
+    rw [e, lockstep_flag_sticky] at hok
+    cases hok
+
 /-! ### (a) concurrency: identity reuse does not commute -/
 
 /-- W1, remove vs restore. A: `a=1` (T1), synced; A: `a=2`; A: undo (re-Sets a copy of T1 under
